@@ -5,60 +5,60 @@ import "github.com/go-swagger/go-swagger/cmd/swagger/commands/diff"
 // names of the Go constants (the mirror relation of C14 is defined on constants, not on the
 // strings of the marshalling tables)
 var codeNames = map[diff.SpecChangeCode]string{
-	diff.NoChangeDetected: "NoChangeDetected",
-	diff.DeletedProperty: "DeletedProperty",
-	diff.AddedProperty: "AddedProperty",
-	diff.AddedRequiredProperty: "AddedRequiredProperty",
-	diff.DeletedOptionalParam: "DeletedOptionalParam",
-	diff.ChangedDescripton: "ChangedDescripton",
-	diff.AddedDescripton: "AddedDescripton",
-	diff.DeletedDescripton: "DeletedDescripton",
-	diff.ChangedTag: "ChangedTag",
-	diff.AddedTag: "AddedTag",
-	diff.DeletedTag: "DeletedTag",
-	diff.DeletedResponse: "DeletedResponse",
-	diff.DeletedEndpoint: "DeletedEndpoint",
+	diff.NoChangeDetected:          "NoChangeDetected",
+	diff.DeletedProperty:           "DeletedProperty",
+	diff.AddedProperty:             "AddedProperty",
+	diff.AddedRequiredProperty:     "AddedRequiredProperty",
+	diff.DeletedOptionalParam:      "DeletedOptionalParam",
+	diff.ChangedDescripton:         "ChangedDescripton",
+	diff.AddedDescripton:           "AddedDescripton",
+	diff.DeletedDescripton:         "DeletedDescripton",
+	diff.ChangedTag:                "ChangedTag",
+	diff.AddedTag:                  "AddedTag",
+	diff.DeletedTag:                "DeletedTag",
+	diff.DeletedResponse:           "DeletedResponse",
+	diff.DeletedEndpoint:           "DeletedEndpoint",
 	diff.DeletedDeprecatedEndpoint: "DeletedDeprecatedEndpoint",
-	diff.AddedRequiredParam: "AddedRequiredParam",
-	diff.DeletedRequiredParam: "DeletedRequiredParam",
-	diff.AddedEndpoint: "AddedEndpoint",
-	diff.WidenedType: "WidenedType",
-	diff.NarrowedType: "NarrowedType",
-	diff.ChangedToCompatibleType: "ChangedToCompatibleType",
-	diff.ChangedType: "ChangedType",
-	diff.AddedEnumValue: "AddedEnumValue",
-	diff.DeletedEnumValue: "DeletedEnumValue",
-	diff.AddedOptionalParam: "AddedOptionalParam",
+	diff.AddedRequiredParam:        "AddedRequiredParam",
+	diff.DeletedRequiredParam:      "DeletedRequiredParam",
+	diff.AddedEndpoint:             "AddedEndpoint",
+	diff.WidenedType:               "WidenedType",
+	diff.NarrowedType:              "NarrowedType",
+	diff.ChangedToCompatibleType:   "ChangedToCompatibleType",
+	diff.ChangedType:               "ChangedType",
+	diff.AddedEnumValue:            "AddedEnumValue",
+	diff.DeletedEnumValue:          "DeletedEnumValue",
+	diff.AddedOptionalParam:        "AddedOptionalParam",
 	diff.ChangedOptionalToRequired: "ChangedOptionalToRequired",
 	diff.ChangedRequiredToOptional: "ChangedRequiredToOptional",
-	diff.AddedResponse: "AddedResponse",
-	diff.AddedConsumesFormat: "AddedConsumesFormat",
-	diff.DeletedConsumesFormat: "DeletedConsumesFormat",
-	diff.AddedProducesFormat: "AddedProducesFormat",
-	diff.DeletedProducesFormat: "DeletedProducesFormat",
-	diff.AddedSchemes: "AddedSchemes",
-	diff.DeletedSchemes: "DeletedSchemes",
-	diff.ChangedHostURL: "ChangedHostURL",
-	diff.ChangedBasePath: "ChangedBasePath",
-	diff.AddedResponseHeader: "AddedResponseHeader",
-	diff.ChangedResponseHeader: "ChangedResponseHeader",
-	diff.DeletedResponseHeader: "DeletedResponseHeader",
-	diff.RefTargetChanged: "RefTargetChanged",
-	diff.RefTargetRenamed: "RefTargetRenamed",
-	diff.DeletedConstraint: "DeletedConstraint",
-	diff.AddedConstraint: "AddedConstraint",
-	diff.DeletedDefinition: "DeletedDefinition",
-	diff.AddedDefinition: "AddedDefinition",
-	diff.ChangedDefault: "ChangedDefault",
-	diff.AddedDefault: "AddedDefault",
-	diff.DeletedDefault: "DeletedDefault",
-	diff.ChangedExample: "ChangedExample",
-	diff.AddedExample: "AddedExample",
-	diff.DeletedExample: "DeletedExample",
-	diff.ChangedCollectionFormat: "ChangedCollectionFormat",
-	diff.DeletedExtension: "DeletedExtension",
-	diff.AddedExtension: "AddedExtension",
-	diff.ChangedExtensionValue: "ChangedExtensionValue",
+	diff.AddedResponse:             "AddedResponse",
+	diff.AddedConsumesFormat:       "AddedConsumesFormat",
+	diff.DeletedConsumesFormat:     "DeletedConsumesFormat",
+	diff.AddedProducesFormat:       "AddedProducesFormat",
+	diff.DeletedProducesFormat:     "DeletedProducesFormat",
+	diff.AddedSchemes:              "AddedSchemes",
+	diff.DeletedSchemes:            "DeletedSchemes",
+	diff.ChangedHostURL:            "ChangedHostURL",
+	diff.ChangedBasePath:           "ChangedBasePath",
+	diff.AddedResponseHeader:       "AddedResponseHeader",
+	diff.ChangedResponseHeader:     "ChangedResponseHeader",
+	diff.DeletedResponseHeader:     "DeletedResponseHeader",
+	diff.RefTargetChanged:          "RefTargetChanged",
+	diff.RefTargetRenamed:          "RefTargetRenamed",
+	diff.DeletedConstraint:         "DeletedConstraint",
+	diff.AddedConstraint:           "AddedConstraint",
+	diff.DeletedDefinition:         "DeletedDefinition",
+	diff.AddedDefinition:           "AddedDefinition",
+	diff.ChangedDefault:            "ChangedDefault",
+	diff.AddedDefault:              "AddedDefault",
+	diff.DeletedDefault:            "DeletedDefault",
+	diff.ChangedExample:            "ChangedExample",
+	diff.AddedExample:              "AddedExample",
+	diff.DeletedExample:            "DeletedExample",
+	diff.ChangedCollectionFormat:   "ChangedCollectionFormat",
+	diff.DeletedExtension:          "DeletedExtension",
+	diff.AddedExtension:            "AddedExtension",
+	diff.ChangedExtensionValue:     "ChangedExtensionValue",
 }
 
 func goCodeName(c diff.SpecChangeCode) string {
